@@ -743,7 +743,23 @@ pub fn gen_ops(rng: &mut Rng, keys: &[Vec<u8>], seps: &[Vec<u8>], n_ops: usize) 
         };
         ops.push(op);
     }
+    // `term_bounds_to_ord` on the bounds of every generated range (no further random draws, so the
+    // generated stream of the other operations is unchanged)
+    let tbo: Vec<String> = ops.iter().filter(|o| o.starts_with("rng:")).map(|o| {
+        let p: Vec<&str> = o.split(':').collect();
+        format!("tbo:{}:{}", p[1], p[2])
+    }).collect();
+    ops.extend(tbo);
     ops
+}
+
+fn show_ord_bound(b: &Bound<u64>) -> String {
+    let n = |o: &u64| if *o == u64::MAX { "max".to_string() } else { o.to_string() };
+    match b {
+        Bound::Unbounded => "u".into(),
+        Bound::Included(o) => format!("i{}", n(o)),
+        Bound::Excluded(o) => format!("e{}", n(o)),
+    }
 }
 
 fn show_hit(h: &TermOrdHit) -> String {
@@ -940,6 +956,34 @@ pub fn check_ops<T: SSTable>(ctx: &mut Ctx, codec: &Codec<T>, case: &DictCase, d
                     } else if shown != model {
                         bad(ctx, "model", "C15:value-from-ord-model", format!("real {shown} model {model}"));
                     }
+                }
+            }
+            "tbo" => {
+                let lo = Bnd::parse(parts[1]);
+                let hi = Bnd::parse(parts[2]);
+                let own = |b: &Bnd| -> Bound<Vec<u8>> {
+                    match b {
+                        Bnd::U => Bound::Unbounded,
+                        Bnd::I(k) => Bound::Included(k.clone()),
+                        Bnd::E(k) => Bound::Excluded(k.clone()),
+                    }
+                };
+                let real = match catch_unwind(AssertUnwindSafe(|| dict.term_bounds_to_ord(own(&lo), own(&hi)))) {
+                    Ok(Ok(r)) => r,
+                    _ => {
+                        bad(ctx, "oracle", "C15:term-bounds-to-ord-panics", "term_bounds_to_ord panicked or failed".into());
+                        continue;
+                    }
+                };
+                // oracle: the ordinal bounds select exactly the ordinals whose keys are within the key bounds
+                let in_lo = |i: u64| match real.0 { Bound::Unbounded => true, Bound::Included(o) => o <= i, Bound::Excluded(o) => o < i };
+                let in_hi = |i: u64| match real.1 { Bound::Unbounded => true, Bound::Included(o) => i <= o, Bound::Excluded(o) => i < o };
+                let wrong = sorted.iter().enumerate().find(|(i, e)| (in_lo(*i as u64) && in_hi(*i as u64)) != (lo.lo_ok(e.0) && hi.hi_ok(e.0)));
+                let shown = format!("{},{}", show_ord_bound(&real.0), show_ord_bound(&real.1));
+                if let Some((i, _)) = wrong {
+                    bad(ctx, "oracle", "C15:term-bounds-to-ord-wrong", format!("term_bounds_to_ord = {shown}: ordinal {i} is selected differently from its key"));
+                } else if shown != model {
+                    bad(ctx, "model", "C15:term-bounds-to-ord-model", format!("real {shown} model {model}"));
                 }
             }
             "blk" => {
@@ -1182,23 +1226,23 @@ pub fn run(ctx: &mut Ctx) {
     }
     let mut rng = ctx.rng.fork();
     other::corpus(ctx);
-    let dicts = ctx.budget(700, 12000);
+    let dicts = ctx.budget(700, 5000);
     for _ in 0..dicts {
         one_dictionary(ctx, &mut rng, 40);
     }
-    let seqs = ctx.budget(1000, 20000);
+    let seqs = ctx.budget(1000, 8000);
     for _ in 0..seqs {
         other::insertion_order(ctx, &mut rng);
     }
-    let merges = ctx.budget(300, 6000);
+    let merges = ctx.budget(300, 2500);
     for _ in 0..merges {
         other::merges(ctx, &mut rng);
     }
-    let fsts = ctx.budget(150, 3000);
+    let fsts = ctx.budget(150, 1200);
     for _ in 0..fsts {
         other::fst_termdict(ctx, &mut rng);
     }
-    let cols = ctx.budget(80, 1500);
+    let cols = ctx.budget(80, 600);
     for _ in 0..cols {
         other::columnar(ctx, &mut rng);
     }
